@@ -56,7 +56,23 @@ def g_cap(lon, lat):
     return v
 
 
-SAMPLERS = {"cap": g_cap, "scalar": g_scalar, "scalar2": g_scalar2, "rgb": g_rgb, "cheap": g_cheap, "cheap-rgb": g_cheap_rgb}
+def g_rgba1(lon, lat):
+    # opaque everywhere; pure black (defined!) over bands of latitude
+    c = g_rgb(lon, lat)
+    c[np.cos(3 * lat) > 0.9] = 0
+    return np.concatenate([c, np.full(c.shape[:2] + (1,), 255, np.uint8)], axis=-1)
+
+
+def g_rgba2(lon, lat):
+    # partly transparent: earlier data must survive there
+    c = 255 - g_rgb(lon, lat)
+    a = np.full(c.shape[:2] + (1,), 255, np.uint8)
+    out = np.concatenate([c, a], axis=-1)
+    out[np.sin(5 * lon) * np.cos(3 * lat) > 0.3] = 0
+    return out
+
+
+SAMPLERS = {"rgba1": g_rgba1, "rgba2": g_rgba2, "cap": g_cap, "scalar": g_scalar, "scalar2": g_scalar2, "rgb": g_rgb, "cheap": g_cheap, "cheap-rgb": g_cheap_rgb}
 
 
 def ref_coords(n, x, y, planetary):
@@ -176,6 +192,37 @@ def serial_case(d, depth, planetary, fmt, mode, part):
                     e = expected_tile(*p, planetary, "cap")
                     if not np.all(np.isnan(e)):
                         expected[p] = e
+            elif mode == "update-partial-rgba":
+                # as update-partial, on PNG tiles whose first layer holds opaque pure-black pixels, after the
+                # tile-allsky command ran in this process with --black-to-transparent into ANOTHER directory
+                # (an input-loading option: it must not reach the tiles that are read back and updated)
+                from toasty import cli
+                from PIL import Image as PI
+
+                src = os.path.join(d, "bmap.png")
+                PI.fromarray(np.zeros((8, 16, 3), np.uint8) + 60).save(src)
+                shutil.rmtree(os.path.join(d, "other"), ignore_errors=True)
+                cli.entrypoint(["tile-allsky", "--black-to-transparent", "--placeholder-thumbnail", "--parallelism", "1", "--outdir", os.path.join(d, "other"), src, "1"])
+                s1 = set(p for k, p in enumerate(allpos) if k % 3 != 2)
+                s2 = set(p for k, p in enumerate(allpos) if k % 2 == 0)
+
+                def flt(S):
+                    anc = set()
+                    for p in S:
+                        q = p
+                        while q[0] >= 1:
+                            anc.add(q)
+                            q = (q[0] - 1, q[1] // 2, q[2] // 2)
+                    return lambda t: tuple(t.pos) in anc
+
+                toast.sample_layer_filtered(pio, flt(s1), SAMPLERS["rgba1"], depth, coordsys=cs, parallel=1)
+                toast.sample_layer_filtered(pio, flt(s2), SAMPLERS["rgba2"], depth, coordsys=cs, parallel=1)
+                for p in s1 | s2:
+                    a = expected_tile(*p, planetary, "rgba1") if p in s1 else np.zeros((256, 256, 4), np.uint8)
+                    if p in s2:
+                        b = expected_tile(*p, planetary, "rgba2")
+                        a = np.where(b[..., 3:4] == 0, a, b)
+                    expected[p] = a
             elif mode == "update-partial":
                 # an earlier partial sampling (set S1), then a second one (set S2, overlapping) whose sampler
                 # is undefined in places: defined source pixels replace, undefined ones leave the old data
@@ -366,10 +413,12 @@ def run(tier, seed):
     for depth in depths:
         for planetary in (False, True):
             for fmt in ("png", "npy", "fits"):
-                for mode in ("clobber", "update-all", "update-partial", "clobber-over-existing", "clobber-cap", "cli-allsky"):
+                for mode in ("clobber", "update-all", "update-partial", "clobber-over-existing", "clobber-cap", "cli-allsky", "update-partial-rgba"):
                     if mode == "clobber-cap" and (fmt == "png" or depth < 2):
                         continue
                     if mode == "cli-allsky" and (fmt != "png" or depth not in (1, 2)):
+                        continue
+                    if mode == "update-partial-rgba" and (fmt != "png" or depth not in (1, 2)):
                         continue
                     if mode == "update-partial" and (fmt == "png" or depth == 0):
                         continue
